@@ -334,13 +334,18 @@ def compute_covariance_xx(seperation, subap1_diam, subap2_diam, r0, L0):
     x1 = seperation[..., 0] + (subap2_diam - subap1_diam) * 0.5
     r1 = numpy.sqrt(x1**2 + seperation[..., 1]**2)
 
+    # same-side edges: the two pairs only coincide when both sub-apertures have the same size
+    x1b = seperation[..., 0] - (subap2_diam - subap1_diam) * 0.5
+    r1b = numpy.sqrt(x1b**2 + seperation[..., 1]**2)
+
     x2 = seperation[..., 0] - (subap2_diam + subap1_diam) * 0.5
     r2 = numpy.sqrt(x2**2 + seperation[..., 1]**2)
 
     x3 = seperation[..., 0] + (subap2_diam + subap1_diam) * 0.5
     r3 = numpy.sqrt(x3**2 + seperation[..., 1]**2)
 
-    Cxx = (-2 * structure_function_vk(r1, r0, L0)
+    Cxx = (- structure_function_vk(r1, r0, L0)
+            - structure_function_vk(r1b, r0, L0)
             + structure_function_vk(r2, r0, L0)
             + structure_function_vk(r3, r0, L0)
            )
@@ -353,13 +358,17 @@ def compute_covariance_yy(seperation, subap1_diam, subap2_diam, r0, L0):
     y1 = seperation[..., 1] + (subap2_diam - subap1_diam) * 0.5
     r1 = numpy.sqrt(seperation[..., 0]**2 + y1**2)
 
+    y1b = seperation[..., 1] - (subap2_diam - subap1_diam) * 0.5
+    r1b = numpy.sqrt(seperation[..., 0]**2 + y1b**2)
+
     y2 = seperation[..., 1] - (subap2_diam + subap1_diam) * 0.5
     r2 = numpy.sqrt(seperation[..., 0]**2 + y2**2)
 
     y3 = seperation[..., 1] + (subap2_diam + subap1_diam) * 0.5
     r3 = numpy.sqrt(seperation[..., 0]**2 + y3**2)
 
-    Cyy = (-2 * structure_function_vk(r1, r0, L0)
+    Cyy = (- structure_function_vk(r1, r0, L0)
+           - structure_function_vk(r1b, r0, L0)
            + structure_function_vk(r2, r0, L0)
            + structure_function_vk(r3, r0, L0)
            )
